@@ -534,9 +534,25 @@ func (e *Engine) DisciplineUnit(m *Monitor) *FnRun {
 // havocAllHeap forgets the heap, except what a held monitor protects: while this unit holds the lock no other code
 // can change the protected state (lock discipline, non-reentrant mutex).
 // markEscaped: the value (a box address, or a closure capturing boxes) becomes reachable by other code.
+func (fr *Frame) isOwnBox(ref string) bool {
+	for f := fr; f != nil; f = f.parent {
+		if _, ok := f.ownBoxes[ref]; ok {
+			return true
+		}
+	}
+	return false
+}
+
 func (fr *Frame) markEscaped(v Val) {
 	if v.T.S == "" {
 		return
+	}
+	if held, ok := fr.R.boxHolds[v.T.S]; ok {
+		// the cell becomes reachable by other code: so does everything that was stored in it
+		delete(fr.R.boxHolds, v.T.S)
+		for _, h := range held {
+			fr.markEscaped(h)
+		}
 	}
 	for f := fr; f != nil; f = f.parent {
 		if f.ownBoxes == nil {
@@ -549,7 +565,15 @@ func (fr *Frame) markEscaped(v Val) {
 					continue
 				}
 				if i < len(ci.fn.FreeVars) && !closureWrites(ci.fn, ci.fn.FreeVars[i]) {
-					continue // the closure only reads the variable: nobody else can change it
+					// the closure only reads the variable: nobody else can change the variable itself - but what the
+					// variable holds (a pointer stored in it) is now reachable through the closure
+					if held, ok := fr.R.boxHolds[b.T.S]; ok {
+						delete(fr.R.boxHolds, b.T.S)
+						for _, h := range held {
+							fr.markEscaped(h)
+						}
+					}
+					continue
 				}
 				delete(f.ownBoxes, b.T.S)
 			}
